@@ -306,18 +306,42 @@ Inductive tst :=
 | TMember (gid : nat) (real : Z)
 | TRefused (e : jerr)
 | TLeft
+| TLeaving                             (* a leave thread of a tcp/tcpmux member between close(closeCh) and CloseListener *)
 | THeld (gid : nat) (gen : Z)          (* accepted by the worker of generation gen, send pending *)
 | TConn (c : cres)
 | TDone.
 
 Record cfg := { c_s : st; c_t : list tst;
+                c_cl : list (nat * nat);   (* (join thread, group object): listeners whose closeCh has been closed *)
+                c_dead : list nat;         (* join threads whose accept loop has seen closeCh and returned *)
                 c_lost : bool }.       (* a connection was stranded although its group had a member *)
 Inductive world := Run (c : cfg) | Crashed.
 
 Definition set_t (c : cfg) (s : st) (i : nat) (t : tst) : cfg :=
-  {| c_s := s; c_t := upd (c_t c) i t; c_lost := c_lost c |}.
+  {| c_s := s; c_t := upd (c_t c) i t; c_cl := c_cl c; c_dead := c_dead c; c_lost := c_lost c |}.
 Definition mark_lost (c : cfg) (b : bool) : cfg :=
-  {| c_s := c_s c; c_t := c_t c; c_lost := c_lost c || b |}.
+  {| c_s := c_s c; c_t := c_t c; c_cl := c_cl c; c_dead := c_dead c; c_lost := c_lost c || b |}.
+Definition add_cl (c : cfg) (jt gid : nat) : cfg :=
+  {| c_s := c_s c; c_t := c_t c; c_cl := (jt, gid) :: c_cl c; c_dead := c_dead c; c_lost := c_lost c |}.
+Definition add_dead (c : cfg) (jt : nat) : cfg :=
+  {| c_s := c_s c; c_t := c_t c; c_cl := c_cl c; c_dead := jt :: c_dead c; c_lost := c_lost c |}.
+
+Definition nmem (x : nat) (l : list nat) : bool := existsb (Nat.eqb x) l.
+Definition closing (jt : nat) (cl : list (nat * nat)) : bool := existsb (fun e => Nat.eqb (fst e) jt) cl.
+Definition closing_of (jt gid : nat) (cl : list (nat * nat)) : bool :=
+  existsb (fun e => Nat.eqb (fst e) jt && Nat.eqb (snd e) gid) cl.
+
+(* may the accept loop of join thread w take a connection from the hand-off channel of object gid?
+   It must not have returned yet, and its listener must belong to gid: a current member, or a
+   listener whose Close has begun (or even finished) but whose loop has not yet noticed closeCh —
+   TCPGroupListener.Accept selects between closeCh and the channel and Go picks at random when both
+   are ready. *)
+Definition can_receive (c : cfg) (gid : nat) (who : Z) : bool :=
+  (0 <=? who) &&
+  let w := Z.to_nat who in
+  negb (nmem w (c_dead c)) &&
+  ((match nth_error (c_t c) w with Some (TMember g _) => Nat.eqb g gid | _ => false end)
+   || closing_of w gid (c_cl c)).
 
 Definition is_held (gid : nat) (gen : Z) (t : tst) : bool :=
   match t with THeld g n => Nat.eqb g gid && (n =? gen) | _ => false end.
@@ -353,13 +377,26 @@ Definition stepg (two : bool) (k : kind) (reqs : list req) (i : nat) (c : cfg) :
           match k with
           | KHttp => let s' := leave_http s (j_group j) (j_m j) in Run (set_t (set_t c s' jt TLeft) s' i TDone)
           | _ =>
-              match leave_chan k s gid (Z.of_nat jt) with
-              | None => Crashed
-              | Some s' => Run (set_t (set_t c s' jt TLeft) s' i TDone)
-              end
+              (* TCPGroupListener.Close, first statement: close(ln.closeCh) (no lock) *)
+              if closing jt (c_cl c) then Run c             (* a listener is closed once *)
+              else Run (set_t (add_cl c jt gid) s i TLeaving)
           end
       | _, _ => Run c                                  (* nothing to close yet: not enabled *)
       end
+  | Some (QLeave jt), Some TLeaving =>
+      match k, nth_error reqs jt, nth_error (c_t c) jt with
+      | KHttp, _, _ => Run c                           (* no such state for http *)
+      | _, Some (QJoin j), Some (TMember gid _) =>
+          (* ... second statement: group.CloseListener(ln), controller lock then group lock *)
+          match leave_chan k s gid (Z.of_nat jt) with
+          | None => Crashed
+          | Some s' => Run (set_t (set_t c s' jt TLeft) s' i TDone)
+          end
+      | _, _, _ => Run c
+      end
+  | Some (QJoin j), Some (TMember _ _) | Some (QJoin j), Some TLeft =>
+      (* the member's accept loop passes through select, finds closeCh closed and returns *)
+      if closing i (c_cl c) && negb (nmem i (c_dead c)) then Run (add_dead c i) else Run c
   | Some (QConn r who), Some TInit =>
       match find_ep k s r with
       | None => Run (set_t c s i (TConn CRefused))
@@ -389,7 +426,7 @@ Definition stepg (two : bool) (k : kind) (reqs : list req) (i : nat) (c : cfg) :
             let g' := if gen =? g_gen g then set_wk g false else g in
             Run (mark_lost (set_t c (set_heap s (upd (s_heap s) gid g')) i (TConn CStranded))
                            (negb (is_nil (g_lns g))))
-          else if zmem who (g_lns g) then Run (set_t c s i (TConn (CTo who)))
+          else if can_receive c gid who then Run (set_t c s i (TConn (CTo who)))
           else Run c                                   (* blocked in the send *)
       end
   | Some (QEnvTake r), Some TInit =>
@@ -414,7 +451,7 @@ Definition run := rung false.
 Definition run2 := rung true.
 
 Definition init_cfg (lo hi : Z) (n : nat) : cfg :=
-  {| c_s := init_st lo hi; c_t := repeat TInit n; c_lost := false |}.
+  {| c_s := init_st lo hi; c_t := repeat TInit n; c_cl := []; c_dead := []; c_lost := false |}.
 Definition init (lo hi : Z) (reqs : list req) : world := Run (init_cfg lo hi (length reqs)).
 
 (* every thread to completion, one after the other: a sequential history *)
@@ -428,14 +465,16 @@ Definition seq_sched (reqs : list req) : list nat := seq_sched_from 0 (length re
    up but not yet joined? *)
 Definition last_leave_gid (k : kind) (reqs : list req) (i : nat) (c : cfg) : option nat :=
   match nth_error reqs i, nth_error (c_t c) i with
-  | Some (QLeave jt), Some TInit =>
+  | Some (QLeave jt), Some t =>
       match nth_error reqs jt, nth_error (c_t c) jt with
       | Some (QJoin j), Some (TMember gid _) =>
           match nth_error (s_heap (c_s c)) gid with
           | Some g =>
-              match k with
-              | KHttp => if is_nil (filter (fun x => negb (x =? j_m j)) (g_funcs g)) then Some gid else None
-              | _ => if is_nil (remove_first (Z.of_nat jt) (g_lns g)) then Some gid else None
+              match k, t with
+              | KHttp, TInit => if is_nil (filter (fun x => negb (x =? j_m j)) (g_funcs g)) then Some gid else None
+              | KHttp, _ => None
+              | _, TLeaving => if is_nil (remove_first (Z.of_nat jt) (g_lns g)) then Some gid else None
+              | _, _ => None
               end
           | None => None
           end
